@@ -130,6 +130,9 @@ MUTANTS = [
      "        if self.tree is None or other.tree is None:\n            return np.zeros(len(ang_limits))\n", ""),
     ("c10-binning-file-closed-flipped", ["C07"], "catalog/trees.py",
      "                closed_left = binning.closed == Closed.left", "                closed_left = binning.closed == Closed.left or len(binning) == 1"),
+    ("c07-assert-control-flow", ["C07"], "catalog/trees.py",
+     '            if force:\n                raise AssertionError("rebuild requested")\n            new = cls(patch)  # trees exists, load the associated binning\n            if not new.binning_equal(binning):\n                raise AssertionError("cached trees use a different binning")',
+     '            assert not force\n            new = cls(patch)  # trees exists, load the associated binning\n            assert new.binning_equal(binning)'),
     # ---- C06
     ("c06-sentinel-per-task", ["C06"], "utils/parallel.py",
      "        except StopIteration:\n            comm.send(EndOfQueue, dest=rank, tag=1)\n            active_workers -= 1",
